@@ -304,6 +304,24 @@ def _run_naive(case, ctx):
                   strategy=strategy, sp=sp, window_length=wl, n=n, steps=steps, got=pred.values.tolist(), expected=ref,
                   tail=yl[-min(n, 2 * max(sp, 3)):])
     ctx.event(strategy=strategy, sp=sp, wl=wl, n=n, steps=steps[:8], got=pred.values.tolist()[:8], expected=ref[:8])
+    # the same observations on a monthly period index, the (possibly gapped) horizon given as the absolute periods: same values, labelled by
+    # the requested periods.  (Period arithmetic runs through the compatibility layer here: failures to run are recorded, not judged.)
+    if case["dseed"] % 9 == 4 and case["nan"] == "none" and not drift_nan:
+        try:
+            from sktime.forecasting.base import ForecastingHorizon
+            pidx = pd.period_range("2001-01", periods=n, freq="M")
+            fp = NaiveForecaster(strategy=strategy, sp=sp, window_length=wl).fit(pd.Series(np.asarray(vals, dtype=float), index=pidx))
+            want_idx = pd.PeriodIndex([pidx[-1] + int(s_) for s_ in steps], freq="M")
+            pp = fp.predict(ForecastingHorizon(want_idx, is_relative=False))
+            ran = True
+        except Exception as e:  # noqa
+            ran = False
+            ctx.tag("period-index-twin-not-runnable:" + type(e).__name__)
+        if ran:
+            ctx.check("naive.oos", list(pp.index) == list(want_idx) and _close(pp.values, pred.values, 1e-9, 1e-9), "naive:period-index:absolute-horizon-differs-from-integer-index",
+                      "the same observations on a period index, asked for the same (gapped) time points as absolute periods, give other values / labels", steps=steps[:6],
+                      got=np.asarray(pp.values, dtype=float).tolist()[:6], expected=pred.values.tolist()[:6])
+            ctx.tag("period-index-twin")
     # in-sample: one-step forecasts from the preceding cutoff (where the full window exists)
     if case["insample"] and case["nan"] == "none":
         rel = [-(n - 1 - p) for p in range(n)]
